@@ -1,1 +1,64 @@
-"""operation handlers (registered on import)"""
+"""Symbol-table history operations (C11 a)."""
+from __future__ import annotations
+
+from typing import Any, Dict, List
+
+from . import simenv
+from .session import State, op
+
+
+def _snapshot(tbl: Any, read_series: bool) -> Dict[str, Any]:
+    snap: Dict[str, Any] = {
+        "table": list(tbl.sym_table),
+        "index": sorted([[k, int(v)] for k, v in tbl.sym_index.items()]),
+    }
+    if read_series:
+        s_idx = tbl.get_sym_index_series()
+        s_tab = tbl.get_sym_table_series()
+        snap["index_series"] = sorted([[str(k), int(v)] for k, v in s_idx.to_dict().items()])
+        snap["table_series"] = [str(x) for x in s_tab.tolist()]
+    return snap
+
+
+@op("symtab_history")
+def op_symtab_history(state: State, a: Dict[str, Any], env: simenv.SimEnv) -> Any:
+    from hta.common.trace_symbol_table import TraceSymbolTable
+
+    tables: Dict[str, Any] = state.tables
+    out: List[Dict[str, Any]] = []
+    for step_no, st in enumerate(a["steps"]):
+        env.log("symtab_step", n=step_no, t=st["t"])
+        t = st["t"]
+        rec: Dict[str, Any] = {"t": t}
+        try:
+            if t == "new":
+                tables[st["dst"]] = TraceSymbolTable()
+                key = st["dst"]
+            elif t == "add":
+                tables[st["table"]].add_symbols(list(st["symbols"]))
+                key = st["table"]
+            elif t == "add_mp":
+                tables[st["table"]].add_symbols_mp([list(x) for x in st["lists"]])
+                key = st["table"]
+            elif t == "clone":
+                tables[st["dst"]] = TraceSymbolTable.clone(tables[st["src"]])
+                key = st["dst"]
+            elif t == "combine":
+                tables[st["dst"]] = TraceSymbolTable.combine_symbol_tables([tables[s] for s in st["srcs"]])
+                key = st["dst"]
+            elif t == "from_map":
+                tables[st["dst"]] = TraceSymbolTable.create_from_symbol_id_map(dict(st["map"]))
+                key = st["dst"]
+            elif t == "series":
+                key = st["table"]
+            else:
+                raise ValueError(f"unknown symtab step {t}")
+            rec["snap"] = _snapshot(tables[key], bool(st.get("read_series", t == "series")))
+            rec["key"] = key
+        except Exception as exc:  # noqa: BLE001
+            if type(exc).__name__ in ("SimDeadlock", "SimHarnessError"):
+                raise
+            rec["exc"] = type(exc).__name__
+            rec["msg"] = str(exc)[:200]
+        out.append(rec)
+    return {"steps": out}
